@@ -1,6 +1,7 @@
 package lang
 
 import (
+	"sort"
 	"fmt"
 	"math/rand"
 )
@@ -179,6 +180,41 @@ func EnumLoops(deep bool) []*Program {
 			p.Tags = []string{"fam=enum", fmt.Sprintf("shape=switch/sub=%d/breaks=%v", sub, withBreak)}
 			out = append(out, p)
 		}
+	}
+	// a function that falls off its end returns null, whatever its last statement evaluated to
+	lasts := []struct {
+		name string
+		body []N
+	}{
+		{"assign", []N{Assign("q", Bin("+", Var("x"), Int(1)))}},
+		{"echo", []N{Echo(Var("x"))}},
+		{"if", []N{If([]Arm{{C: Bin(">", Var("x"), Int(0)), Body: []N{Assign("q", Int(7))}}}, []N{Assign("q", Int(8))})}},
+		{"loop", loop("for", "i", 2, []N{Assign("q", Var("i"))})},
+		{"call", []N{Call("", "helper", Var("x"))}},
+		{"match", []N{Match("q", Var("x"), []MatchArm{{[]N{Int(1)}, Int(11)}}, Int(12))}},
+		{"empty", nil},
+		{"return-in-branch", []N{If([]Arm{{C: Bin(">", Var("x"), Int(5)), Body: []N{Return(Int(99))}}}, nil), Assign("q", Int(3))}},
+	}
+	for _, l := range lasts {
+		p := &Program{Funcs: map[string]Func{}, Classes: map[string]Class{}}
+		p.Funcs["helper"] = Func{Params: []Param{{Name: "y"}}, Body: []N{Return(Bin("*", Var("y"), Int(2)))}}
+		p.Funcs["nr"] = Func{Params: []Param{{Name: "x"}}, Body: l.body}
+		p.Main = []N{Mark(1), Assign("r", Int(5)), Call("r", "nr", Int(1)), Echo(Tern(Bin("===", Var("r"), Null()), Str("null"), Str("value"))), Echo(Var("r")), Mark(2)}
+		p.Tags = []string{"fam=enum", "shape=no-return/last=" + l.name}
+		out = append(out, p)
+	}
+	// a static local is ONE variable for all activations: what an inner (recursive) call adds is there when the outer continues
+	for _, how := range []string{"assign", "incr"} {
+		upd := N(Assign("c", Bin("+", Var("c"), Int(1))))
+		if how == "incr" {
+			upd = Incr("c", 1)
+		}
+		p := &Program{Funcs: map[string]Func{}, Classes: map[string]Class{}}
+		p.Funcs["rec"] = Func{Params: []Param{{Name: "n"}}, Body: []N{Static("c", Int(0)), upd,
+			If([]Arm{{C: Bin(">", Var("n"), Int(0)), Body: []N{Call("", "rec", Bin("-", Var("n"), Int(1)))}}}, nil), Echo(Var("c")), Return(Var("c"))}}
+		p.Main = []N{Mark(1), Call("r", "rec", Int(2)), Echo(Var("r")), Call("r", "rec", Int(0)), Echo(Var("r")), Mark(2)}
+		p.Tags = []string{"fam=enum", "shape=static-recursion/update=" + how}
+		out = append(out, p)
 	}
 	// match compares strictly: arms of another type never match a subject that is loosely equal to them
 	subjects := []struct {
@@ -661,4 +697,55 @@ func Uncaught() []*Program {
 		}
 	}
 	return out
+}
+
+// ExcIsA is the reference subtype relation of the exception fixture (the Go twin of Lang.tla's IsA).
+func ExcIsA(c, t string) bool {
+	if c == t || t == "Throwable" || t == "Exception" {
+		return true
+	}
+	var ifaceIsA func(i, t string) bool
+	ifaceIsA = func(i, t string) bool {
+		if i == t {
+			return true
+		}
+		for _, f := range excIfaces {
+			if f.Name == i {
+				for _, e := range f.Ext {
+					if ifaceIsA(e, t) {
+						return true
+					}
+				}
+			}
+		}
+		return false
+	}
+	cl, ok := excClasses[c]
+	if !ok {
+		return false
+	}
+	for _, i := range cl.Impl {
+		if ifaceIsA(i, t) {
+			return true
+		}
+	}
+	return cl.Ext != "" && ExcIsA(cl.Ext, t)
+}
+
+// ExcFixtureSource declares the exception fixture (interfaces, then classes parents first).
+func ExcFixtureSource() string {
+	p := &Program{Funcs: map[string]Func{}, Classes: excClasses, Ifaces: excIfaces}
+	return p.Source("")
+}
+
+// ExcTypes lists the fixture's classes and interfaces.
+func ExcTypes() (classes, ifaces []string) {
+	for c := range excClasses {
+		classes = append(classes, c)
+	}
+	sort.Strings(classes)
+	for _, i := range excIfaces {
+		ifaces = append(ifaces, i.Name)
+	}
+	return
 }
